@@ -70,37 +70,13 @@ spec fn queued(b: GenericSocketBackend) -> Option<Map<PeerIdentity, ZmqFramedRea
     match b.fair_queue_inner { Some(m) => Some(m.inner.streams@), None => None }
 }
 
-// A-REGION-3 / A-REGION-4 (D5): `match &self.fair_queue_inner { None => {} Some(inner) => { inner.lock().<op>; } }`
-// locks a parking_lot mutex behind a shared reference; the stand-in mutex needs `&mut`.  The two statements are
-// replaced by these stubs (ASSUMED: insert / remove the read half under the given identity).
-#[verifier::external_body]
-fn assumed_queue_insert(q: &mut Option<Arc<Mutex<QueueInner<ZmqFramedRead, PeerIdentity>>>>, id: PeerIdentity, s: ZmqFramedRead)
-    ensures
-        *old(q) is None ==> *final(q) is None,
-        *old(q) matches Some(m) ==> *final(q) is Some && (*final(q))->Some_0.inner.streams@ == m.inner.streams@.insert(id, s),
-{ unimplemented!() }
-#[verifier::external_body]
-fn assumed_queue_remove(q: &mut Option<Arc<Mutex<QueueInner<ZmqFramedRead, PeerIdentity>>>>, id: &PeerIdentity)
-    ensures
-        *old(q) is None ==> *final(q) is None,
-        *old(q) matches Some(m) ==> *final(q) is Some && (*final(q))->Some_0.inner.streams@ == m.inner.streams@.remove(*id),
-{ unimplemented!() }
-
 impl GenericSocketBackend {
 // C09 / C10: write half stored under, read half queued under, and rotation entered with the SAME identity
 //@ item src/backend.rs :: impl MultiPeerBackend for GenericSocketBackend / fn peer_connected
 //@ name GenericSocketBackend::peer_connected
 //@ inherent
 //@ receiver-mut
-//@ region "match &self.fair_queue_inner"
-//@|        assumed_queue_insert(&mut self.fair_queue_inner, peer_id.clone(), recv_queue)
-//@ region-text
-//@|        match &self.fair_queue_inner {
-//@|            None => {}
-//@|            Some(inner) => {
-//@|                inner.lock().insert(peer_id.clone(), recv_queue);
-//@|            }
-//@|        }
+//@ mutref "&self.fair_queue_inner"
 //@ spec
 //@|        ensures
 //@|            final(self).peers@ == old(self).peers@.insert(*peer_id, Peer { send_queue: io.write_half }),
@@ -112,19 +88,13 @@ impl GenericSocketBackend {
 //@ name GenericSocketBackend::peer_disconnected
 //@ inherent
 //@ receiver-mut
-//@ region "match &self.fair_queue_inner"
-//@|        assumed_queue_remove(&mut self.fair_queue_inner, peer_id)
-//@ region-text
-//@|        match &self.fair_queue_inner {
-//@|            None => {}
-//@|            Some(inner) => {
-//@|                inner.lock().remove(peer_id);
-//@|            }
-//@|        }
+//@ mutref "&self.fair_queue_inner"
 //@ spec
 //@|        ensures
 //@|            final(self).peers@ == old(self).peers@.remove(*peer_id),
 //@|            final(self).round_robin@ == old(self).round_robin@,
+//@|            queued(*old(self)) is None ==> queued(*final(self)) is None,
+//@|            queued(*old(self)) is Some ==> queued(*final(self)) == Some(queued(*old(self))->Some_0.remove(*peer_id)),
 //@ end
 
 //@ item src/backend.rs :: impl GenericSocketBackend / fn send_round_robin
